@@ -272,6 +272,42 @@ async fn doc_custom(rqctx: RequestContext<()>, path: Path<IdPath>) -> Result<Htt
     }
 }
 
+// Responses the handler returns successfully but the framework cannot turn into an HTTP response (an
+// illegal header value, a body that fails to serialise): the 500 it generates must be valid against the error
+// schema documented for that operation -- the endpoint's own error type where it has one.
+#[derive(Serialize, JsonSchema)]
+struct Fussy {
+    #[serde(serialize_with = "ser_fussy")]
+    n: u32,
+}
+fn ser_fussy<S: serde::Serializer>(n: &u32, s: S) -> Result<S::Ok, S::Error> {
+    if *n % 2 == 1 {
+        Err(serde::ser::Error::custom("odd numbers do not serialise"))
+    } else {
+        s.serialize_u32(*n)
+    }
+}
+fn header_for(id: u32) -> HdrA {
+    HdrA { a: if id % 2 == 1 { "line\nbreak".into() } else { "fine".into() } }
+}
+#[endpoint { method = GET, path = "/custom-hdr/{id}" }]
+async fn doc_custom_hdr(rqctx: RequestContext<()>, path: Path<IdPath>) -> Result<HttpResponseHeaders<HttpResponseOk<Thing>, HdrA>, ThingyError> {
+    entered(&rqctx, "doc_custom_hdr");
+    let id = path.into_inner().id;
+    Ok(HttpResponseHeaders::new(HttpResponseOk(thing(id)), header_for(id)))
+}
+#[endpoint { method = GET, path = "/custom-fussy/{id}" }]
+async fn doc_custom_fussy(rqctx: RequestContext<()>, path: Path<IdPath>) -> Result<HttpResponseOk<Fussy>, ThingyError> {
+    entered(&rqctx, "doc_custom_fussy");
+    Ok(HttpResponseOk(Fussy { n: path.into_inner().id }))
+}
+#[endpoint { method = GET, path = "/plain-hdr/{id}" }]
+async fn doc_plain_hdr(rqctx: RequestContext<()>, path: Path<IdPath>) -> Result<HttpResponseHeaders<HttpResponseOk<Fussy>, HdrA>, HttpError> {
+    entered(&rqctx, "doc_plain_hdr");
+    let id = path.into_inner().id;
+    Ok(HttpResponseHeaders::new(HttpResponseOk(Fussy { n: id / 4 * 2 }), header_for(id)))
+}
+
 // ---------------------------------------------------------------------------
 // building requests from the document
 // ---------------------------------------------------------------------------
@@ -329,6 +365,9 @@ fn main() {
         api.register(doc_paged).unwrap();
         api.register(doc_fail).unwrap();
         api.register(doc_custom).unwrap();
+        api.register(doc_custom_hdr).unwrap();
+        api.register(doc_custom_fussy).unwrap();
+        api.register(doc_plain_hdr).unwrap();
         let doc: Value = api.openapi("doc", semver::Version::new(1, 0, 0)).json().unwrap();
         let log = slog::Logger::root(slog::Discard, slog::o!());
         let config = ConfigDropshot { bind_address: "127.0.0.1:0".parse().unwrap(), default_request_body_max_bytes: 1 << 20, ..Default::default() };
